@@ -195,7 +195,7 @@ class State(object):
         self.frames = []      # list of dict name -> V ; '$func' -> FuncInfo
         self.flags = set()
         self.counter = 0
-        self.base = 0
+        self.base = -1
         self.syminfo = {}
         self.lin = {}         # sym name -> (other sym name, c): name = other + c
 
